@@ -19,6 +19,7 @@ mod rem;
 mod rsn;
 mod cvt;
 mod c03;
+mod zipx;
 
 pub use rng::Rng;
 
@@ -49,6 +50,7 @@ fn area(name: &str) -> Box<dyn Area> {
         "cvt" => Box::new(cvt::Cvt),
         "c03" => Box::new(c03::C03),
         "c03f" => Box::new(c03::C03f),
+        "zip" => Box::new(zipx::Zipx),
         _ => {
             eprintln!("unknown area {}", name);
             std::process::exit(2)
